@@ -49,6 +49,17 @@ def hostile_docs(rng, prog, kind, h, ct, others):
         wrong = dumps(prog["types"][a0["ti"]].wrong(rng))
         wbody = "{" + ",".join(dumps(T.arg_key(a)) + ":" + (wrong if i == 0 else c) for i, (a, c) in enumerate(zip(h["args"], ct))) + "}"
         out.append(("wrong-typed-field", "{" + dumps(n) + ":" + wbody + "}"))
+    for i, (a, c) in enumerate(zip(h["args"], ct)):
+        # a struct-typed argument written as the array of its members plus one surplus element
+        if c.startswith("{") and len(c) > 2:
+            try:
+                vals = list(json.loads(c).values())
+            except ValueError:
+                continue
+            seq = dumps(vals + ["99"])
+            sbody = "{" + ",".join(dumps(T.arg_key(a2)) + ":" + (seq if j == i else c2) for j, (a2, c2) in enumerate(zip(h["args"], ct))) + "}"
+            out.append(("struct-as-long-seq", "{" + dumps(n) + ":" + sbody + "}"))
+            break
     out.append(("extra-field", "{" + dumps(n) + ":" + body[:-1] + ("," if h["args"] else "") + "\"zz_extra\":1}}"))
     out.append(("array-body", "{" + dumps(n) + ":[" + ",".join(ct) + "]}"))
     out.append(("null-body", "{" + dumps(n) + ":null}"))
@@ -63,6 +74,17 @@ def hostile_docs(rng, prog, kind, h, ct, others):
         out.append(("foreign-body", "{" + dumps(T.wire_name(o[0]["name"])) + ":" + body + "}"))
         out.append(("foreign-name-own-body", "{" + dumps(n) + ":" + o[2] + "}"))
     return out
+
+
+def seq_for_struct(doc, reenc):
+    """True if somewhere the document has an array where the wrapper's re-encoding of what it decoded has an object."""
+    if isinstance(doc, list) and isinstance(reenc, dict):
+        return True
+    if isinstance(doc, dict) and isinstance(reenc, dict):
+        return any(seq_for_struct(v, reenc[k]) for k, v in doc.items() if k in reenc)
+    if isinstance(doc, list) and isinstance(reenc, list):
+        return any(seq_for_struct(a, b) for a, b in zip(doc, reenc))
+    return False
 
 
 def check_prog(ctx, r, prog, n_values, skip_classes=()):
@@ -114,6 +136,16 @@ def check_prog(ctx, r, prog, n_values, skip_classes=()):
                 continue
             wacc = "ok" in w.get("res", {})
             sig_cls = cls
+            if wacc and not acc:
+                try:
+                    if seq_for_struct(json.loads(d), json.loads(w["res"]["ok"]["json"])):
+                        # whatever class produced the document: an array stands where the decoded message has a struct
+                        sig_cls = "seq-for-struct"
+                except (ValueError, KeyError, TypeError):
+                    pass
+            if sig_cls in skip_classes:
+                ctx.count("docs_left_to_C03_" + sig_cls)
+                continue
             if len(acc) == 1:
                 if not wacc:
                     ctx.violate(f"rejects-valid:{sig_cls}", f"{pn} Contract{kind.capitalize()}Msg rejects a document its part {acc[0]} accepts ({cls}): {str(w.get('res'))[:140]}", detail)
